@@ -353,27 +353,7 @@ def run(ctx):
             if not from_slate:
                 run.instance(R6, {"fn": "lock_tx_context", "obligation": "StoredProofInfo.receiver_address does not come from the slate parameter"}, held=True)
                 continue
-            # trace the slate parameter back to counterparty-controlled sources
-            bad = []
-            SOURCES_CALL = ("*::send_tx", c.CTL + "command::try_slatepack_sync_workflow", c.API + "owner::try_slatepack_sync_workflow", "*::slate_from_slatepack_message", "*::get_slate")
-            COUNTERPARTY_PARAMS = {(FOREIGN + "finalize_tx", "slate"), (FOREIGN + "receive_tx", "slate")}
-            seen_sites = set()
-            is_slate = lambda ty: "slate::Slate" in ty and "Slatepack" not in ty
-            for chain, cf, cb, csp, org in vf.backward_param_slice(ctx, lk.id, slate_param[0], type_filter=is_slate):
-                key = (cf.id, csp)
-                if key in seen_sites:
-                    continue
-                seen_sites.add(key)
-                why = None
-                for x in org:
-                    if x[0] in ("call", "mutcall") and any(cfg.match_name(x[1], p) for p in SOURCES_CALL):
-                        why = "slate returned by the counterparty (%s)" % pp.short(x[1])
-                    if x[0] == "arg":
-                        pname = [n for n, p, a in cf.vars if not p[1] and p[0] == x[1] and a > 0]
-                        if pname and (cf.id, pname[0]) in COUNTERPARTY_PARAMS:
-                            why = "the incoming slate parameter of %s" % pp.short(cf.id)
-                if why and not any(x[0].id == cf.id and x[3] == why for x in bad):
-                    bad.append((cf, cb, csp, why, chain))
+            bad, seen_sites = counterparty_slate_sites(ctx, lk, slate_param[0])
             run.instance(R6, {"fn": "lock_tx_context", "obligation": "no call chain hands a counterparty-controlled slate to the reservation step that records the requested receiver address", "call_sites_examined": len(seen_sites), "violations": len(bad)}, held=not bad)
             for cf, cb, csp, why, chain in bad:
                 run.finding(Finding(R6, cf.id, "requested receiver address recorded from %s" % why.split(" (")[0], site=":".join(csp.split(":")[:2]),
@@ -423,3 +403,30 @@ def run(ctx):
             if not ok:
                 run.finding(Finding(R8, fid, "the sender's proof key is derived from %s instead of the transaction's own account: for a send from a non-active account the stored sender address/signature do not match the slate and the exported proof does not verify" % why.split(" (passed")[0], site=c.site_of(f, b), detail=why))
     run.not_decided += ["unforgeability of ed25519", "the amount arithmetic in retrieve_payment_proof", "that the exported proof *verifies* (value-level)"]
+
+
+def counterparty_slate_sites(ctx, lk, slate_local):
+    """Call chains that hand a counterparty-controlled slate to lock_tx_context's slate parameter:
+    [(caller fn, block, span, why, chain)], and the set of call sites examined."""
+    # trace the slate parameter back to counterparty-controlled sources
+    bad = []
+    SOURCES_CALL = ("*::send_tx", c.CTL + "command::try_slatepack_sync_workflow", c.API + "owner::try_slatepack_sync_workflow", "*::slate_from_slatepack_message", "*::get_slate")
+    COUNTERPARTY_PARAMS = {(FOREIGN + "finalize_tx", "slate"), (FOREIGN + "receive_tx", "slate")}
+    seen_sites = set()
+    is_slate = lambda ty: "slate::Slate" in ty and "Slatepack" not in ty
+    for chain, cf, cb, csp, org in vf.backward_param_slice(ctx, lk.id, slate_local, type_filter=is_slate):
+        key = (cf.id, csp)
+        if key in seen_sites:
+            continue
+        seen_sites.add(key)
+        why = None
+        for x in org:
+            if x[0] in ("call", "mutcall") and any(cfg.match_name(x[1], p) for p in SOURCES_CALL):
+                why = "slate returned by the counterparty (%s)" % pp.short(x[1])
+            if x[0] == "arg":
+                pname = [n for n, p, a in cf.vars if not p[1] and p[0] == x[1] and a > 0]
+                if pname and (cf.id, pname[0]) in COUNTERPARTY_PARAMS:
+                    why = "the incoming slate parameter of %s" % pp.short(cf.id)
+        if why and not any(x[0].id == cf.id and x[3] == why for x in bad):
+            bad.append((cf, cb, csp, why, chain))
+    return bad, seen_sites
